@@ -442,10 +442,12 @@ impl<'env> Executor<'env> {
                     let stop = stack.pop();
                     b = stack.pop();
                     a = stack.pop();
-                    if a.is_undefined() && matches!(undefined_behavior, UndefinedBehavior::Strict) {
-                        bail!(Error::from(ErrorKind::UndefinedError));
+                    // slicing looks into the value like a subscript does
+                    if a.is_undefined() {
+                        stack.push(ctx_ok!(undefined_behavior.handle_undefined(true)));
+                    } else {
+                        stack.push(ctx_ok!(ops::slice(a, b, stop, step)));
                     }
-                    stack.push(ctx_ok!(ops::slice(a, b, stop, step)));
                 }
                 Instruction::LoadConst(value) => {
                     stack.push(value.clone());
